@@ -118,20 +118,33 @@ func init() {
 
 	// io.syncb <script> <bufio size>: the real Sync over the real bufio.Reader over the scripted reader
 	register("io.syncb", func(a []Val) Val {
-		sr := &scriptReader{}
-		for _, e := range a[0].L {
-			sr.chunks = append(sr.chunks, append([]byte{}, e.L[0].B...))
-			sr.errs = append(sr.errs, codeErr(e.L[1].Int()))
+		run := func(foreign bool) Val {
+			sr := &scriptReader{}
+			for _, e := range a[0].L {
+				sr.chunks = append(sr.chunks, append([]byte{}, e.L[0].B...))
+				sr.errs = append(sr.errs, codeErr(e.L[1].Int()))
+			}
+			r := bufio.NewReaderSize(sr, a[1].Int())
+			var ps packet.PeekScanner = r
+			if foreign {
+				ps = foreignPeekScanner{r}
+			}
+			off, err := packet.Sync(ps)
+			buf := make([]byte, packet.PacketSize)
+			n, _ := io.ReadFull(r, buf)
+			obs := VL(VI(off), VB(buf[:n]))
+			if err != nil {
+				return VL(VI(1), VI(int64(ioErrCode(err))), obs)
+			}
+			return VL(VI(0), obs)
 		}
-		r := bufio.NewReaderSize(sr, a[1].Int())
-		off, err := packet.Sync(r)
-		buf := make([]byte, packet.PacketSize)
-		n, _ := io.ReadFull(r, buf)
-		obs := VL(VI(off), VB(buf[:n]))
-		if err != nil {
-			return VL(VI(1), VI(int64(ioErrCode(err))), obs)
+		// PeekScanner is an interface: a caller-written implementation (here: one that forwards to a bufio.Reader) must be
+		// served exactly like *bufio.Reader itself (seeded C16-u2: the offset was only counted for *bufio.Reader)
+		r1 := run(false)
+		if r2 := run(true); !valEq(r1, r2) {
+			noteUnstable("packet.Sync answers differently through a caller-written PeekScanner than through *bufio.Reader: %s vs %s", valText(r1), valText(r2))
 		}
-		return VL(VI(0), obs)
+		return r1
 	})
 	// bufio.ops <script> <size> <ops>: the real bufio.Reader driven call by call ([0] ReadByte, [1] UnreadByte,
 	// [2 n] Peek n, [3 k] Read into k bytes)
@@ -375,6 +388,13 @@ func (s *scriptedWriter) WritePacket(p *packet.Packet) (int, error) {
 	}
 	return s.mok, nil
 }
+
+// foreignPeekScanner: a caller-written packet.PeekScanner (forwards to a bufio.Reader; the library must not care)
+type foreignPeekScanner struct{ r *bufio.Reader }
+
+func (f foreignPeekScanner) ReadByte() (byte, error)    { return f.r.ReadByte() }
+func (f foreignPeekScanner) UnreadByte() error          { return f.r.UnreadByte() }
+func (f foreignPeekScanner) Peek(n int) ([]byte, error) { return f.r.Peek(n) }
 
 // rawSink / rawCloserSink: a packet writer that ALSO has raw Write / ReadFrom (/ Close) methods of its own (a sink that
 // embeds a buffer, a file, a connection).  The adapters must still deliver through WritePacket; a raw method being
